@@ -73,6 +73,10 @@ func NewWaitCloserFromParent(p WaitCloser, stopFun func(error)) WaitCloser {
 		case <-p.Done():
 			wc.Close(p.Error())
 		case <-wc.Done():
+			// the parent's end cancels wc's context as well : both cases are ready then
+			if p.Context().Err() != nil {
+				wc.Close(p.Error())
+			}
 		}
 		return
 	}, nil)
@@ -93,6 +97,10 @@ func NewWaitCloserFromContext(pctx context.Context, stopFun func(error)) WaitClo
 		case <-pctx.Done():
 			wc.Close(pctx.Err())
 		case <-wc.Done():
+			// the parent's end cancels wc's context as well : both cases are ready then
+			if pctx.Err() != nil {
+				wc.Close(pctx.Err())
+			}
 		}
 	}, nil)
 
